@@ -1222,6 +1222,12 @@ def _fresh(eng, e, st, fr, k):
     return eng.ev(e.args[0], st, fr, got)
 
 
+def _alloc0(eng, e, st, fr, k):
+    """ALLOC0(): the allocation pointer at entry of the function under contract (objects with a smaller id existed)"""
+    base = st.old[2] if st.old is not None else st.alloc0
+    return k(st, SInt(base))
+
+
 def _existed(eng, e, st, fr, k):
     """existed(x): x is an object that already existed when the function was entered"""
     def got(s, v):
@@ -1424,7 +1430,7 @@ def _modconst(eng, e, st, fr, k):
 
 SPECIAL_FORMS = {"dict_wf": _dict_wf, "dict_pos": _dict_pos, "was": _was, "ghostfn": _ghostfn, "ghost_str": _ghost_str, "ghost": _ghost, "ref_id": _ref_id, "same_class": _same_class, "existed": _existed, "content_unchanged": _content_unchanged, "modconst": _modconst, "nlines": _nlines, "joined": _joined, "truthy": _truthy, "isint": _isint, "isnone": _isnone,
                  "dict_key_at": _dict_key_at, "str_of": _str_of, "forall": _quant("forall"), "exists": _quant("exists"), "implies": _implies, "old": _old,
-                 "fresh": _fresh, "allocated": _allocated, "unchanged": _unchanged, "isstr": _isstr, "isref": _isref,
+                 "fresh": _fresh, "allocated": _allocated, "unchanged": _unchanged, "isstr": _isstr, "isref": _isref, "ALLOC0": _alloc0,
                  "sval": _sval, "ival": _ival, "cls_is": _cls_is, "same": _same_obj, "as_ref": _as_ref}
 SPECIAL_ALWAYS = set()
 SPEC_FUNCS = set()
